@@ -23,6 +23,8 @@ pub const H_INOUT_ORDER: &str = "inout-copy-in-after-later-arguments";
 /// an argument of a method call wrote the object the method is called on: the typed evaluator of C01 copies the object in
 /// before the arguments and back afterwards, C++ (and DXC) pass `this` by reference — not a difference of the exporter
 pub const H_METHOD_OBJECT: &str = "method-argument-writes-object";
+/// an operand of `metal::select` had an effect: the exporter writes the three operands in reverse order
+pub const H_SELECT_ORDER: &str = "metal-select-operand-order";
 
 /// Metal library function → the RSSL built-in it is emitted for
 const MBUILTINS: &[(&str, &str)] = &[
@@ -576,7 +578,10 @@ impl<'a> MslV<'a> {
                     _ => !(constant && fits()),
                 };
                 if narrowing && matches!(t, MTy::S(_)) && matches!(from, MTy::S(_) | MTy::Enum(_)) {
-                    return stuck(Stuck::Class(C_NARROWING), format!("{} {} cannot be narrowed to {} inside braces", from.show(), e.show(), t.show()));
+                    // a constant clause: the struct cast of a LITERAL operand, which the exporter still writes unconverted (fix
+                    // 5d2f434 converts every other operand per element: the class of those is a `fixed` record)
+                    let class = if constant { C_NARROWING_LITERAL } else { C_NARROWING };
+                    return stuck(Stuck::Class(class), format!("{} {} cannot be narrowed to {} inside braces", from.show(), e.show(), t.show()));
                 }
             }
         }
